@@ -8,6 +8,7 @@ from hypothesis import strategies as st
 
 from .. import gens, refs
 from ..runner import Sub
+from . import probes
 from .common import L, Checker, arr
 
 PROPERTY_ID = "C03"
@@ -17,6 +18,7 @@ RULE = ("algebra elements: rotation vector = axis (all directions incl. coordina
         "mpmath matrix exponential for exp; for L=log(T): finite, real, algebra form, |rotation|<=pi, reference exp(L)=T; "
         "log(exp S)=S for |w|<=pi-1e-6. Non-trivial: rotation magnitude < 1e-6, or within 1e-4 of pi, or |t| > 1e3, or pure "
         "translation, or matrix form.")
+RULE = RULE + probes.RULE_TEXT + (probes.AUG_TEXT if PROPERTY_ID in probes.AUG_PROPS else "")
 ASSUMPTIONS = ["mpmath (50 digits, scaling-and-squaring Taylor series) is the reference exponential; the closed-form reference in pbt/refs.py is cross-checked against it at start-up",
                "tolerance 1e-7*max(1,|t|)", "rotation magnitudes in (2e-15, 1e-12) are not generated (the statement starts at 1e-12)",
                "SE2.Exp/SO2.Exp receive ndarrays: a Python list there is documented as a sequence of elements"]
@@ -71,6 +73,8 @@ def s_log2():
 
 
 def check_case(case):
+    if case.get("kind") in ("hist", "aug"):
+        return probes.run(case, PROPERTY_ID)
     return {"exp3": _exp3, "log3": _log3, "exp2": _exp2, "log2": _log2}[case["kind"]](case)
 
 
@@ -317,6 +321,8 @@ def _log2(case):
 
 
 def classify(case):
+    if case.get("kind") in ("hist", "aug"):
+        return probes.classify(case)
     k = case["kind"]
     th = case["w"]["mag"] if k.endswith("3") else abs(case["w"])
     tm = max([abs(x) for x in case["v"]] + [0.0])
@@ -334,4 +340,5 @@ def subchecks(tier):
         Sub("log3", strategy=s_log3(), n=(700, 15000), shards=(5, 16)),
         Sub("exp2", strategy=s_exp2(), n=(500, 6000), shards=(5, 16)),
         Sub("log2", strategy=s_log2(), n=(700, 12000), shards=(4, 16)),
+        *probes.subs(PROPERTY_ID),
     ]
